@@ -1254,7 +1254,8 @@ class AclMachine(Machine):
         except DOCUMENTED as ex:
             if multi and b == "nxos":
                 self.faults["abort[conv_obj]"] += 1
-                return type(ex).__name__  # documented: a single ACE cannot hold several ports
+                # documented: a single ACE cannot hold several ports
+                return self._ace_conv_retry(obj, op["line"], a, b, rd_a, rd_b)
             if op["cls"] in ("AddressAg", "AddrGroup") and b == "ios" and op.get("ncw"):
                 self.faults["abort[conv_obj]"] += 1
                 if op["cls"] == "AddrGroup":
@@ -1278,6 +1279,47 @@ class AclMachine(Machine):
             self._fail("C02", "C02.converge", f"{op['cls']} there/back/there: {t1!r} vs "
                                               f"{obj.line!r}", cls=op["cls"])
         return "ok"
+
+    def _ace_conv_retry(self, ace, line, a, b, rd_a, rd_b):
+        """After the documented refusal (several ports cannot go to NX-OS in one entry) the
+        caller cuts the port lists down to one port through the public Port.items view and
+        converts again: that must convert the entry (meaning of the edited entry, target syntax,
+        platform of every part)."""
+        def cut(x):
+            for port in (x.srcport, x.dstport):
+                if port.operator in ("eq", "neq") and len(port.items) > 1:
+                    port.items = [port.items[0]]
+        try:
+            ref = Ace(line, platform=a)
+            cut(ref)
+            want = rd_a.ace_or_remark(ref.line).den()
+        except (DOCUMENTED + (ReadError, IndexError)):
+            return "ValueError"
+        try:
+            cut(ace)
+            ace.platform = b
+        except DOCUMENTED as ex:
+            self._fail("C02", "C02.converts", f"Ace({line!r}): conversion to {b} repeated after "
+                                              f"the port lists were cut to one port raised "
+                                              f"{type(ex).__name__}: {ex}", cls="Ace")
+        try:
+            got = rd_b.ace_or_remark(ace.line).den()
+        except (ReadError, ValueError, IndexError) as ex:
+            self._fail("C02", "C02.valid-target", f"Ace converted to {b} on retry renders "
+                                                  f"{ace.line!r}: {ex}", cls="Ace")
+        parts = [ace.protocol, ace.srcaddr, ace.srcport, ace.dstaddr, ace.dstport, ace.option]
+        if got != want or ace.platform != b or any(p_.platform != b for p_ in parts):
+            self._fail("C02", "C02.meaning", f"Ace({line!r}) converted to {b} on retry: "
+                                             f"{ace.line!r} (platforms "
+                                             f"{[p_.platform for p_ in parts]})", cls="Ace")
+        t1 = ace.line
+        ace.platform = a
+        ace.platform = b
+        if ace.line != t1:
+            self._fail("C02", "C02.converge", f"Ace there/back/there after retry: {t1!r} vs "
+                                              f"{ace.line!r}", cls="Ace")
+        self.probes["ace_conv_retry_after_refusal"] += 1
+        return "retried"
 
     def _conv_retry(self, ag, a, b):
         """After the documented refusal (a non-contiguous member cannot become an IOS subnet) the
@@ -1753,11 +1795,20 @@ class AclMachine(Machine):
             return dict(op=kind, line=gen.render_ace(spec, "ios", "0", s.choice([0, 10]),
                                                      cfg["names"]))
         if kind == "conv_obj":
-            cls = s.choice(["Ace", "Address", "AddressAg", "AddrGroup"])
+            cls = s.choice(["Ace", "Address", "AddressAg", "AddrGroup"] +
+                           (["Ace", "Ace"] if cfg["aborts"] else []))
             plat = s.choice(["ios", "nxos"])
             ncw = False
             if cls == "Ace":
-                spec = gen.gen_ace(w, cfg, plat)
+                acfg = cfg
+                if plat == "ios" and cfg["aborts"] and s.random() < 0.8:
+                    acfg = dict(cfg, p_multi=0.95)  # refused on its own, converted after an edit
+                spec = gen.gen_ace(w, acfg, plat)
+                for _ in range(8):
+                    if acfg is cfg or any(p_ and p_[0] == "eq" and len(p_[1]) > 1
+                                          for p_ in (spec.get("sport"), spec.get("dport"))):
+                        break
+                    spec = gen.gen_ace(w, acfg, plat)
                 line = gen.render_ace(spec, plat, "0", s.choice([0, 10]), cfg["names"])
             elif cls == "Address":
                 line = gen.render_addr(gen.gen_addr(w, cfg), plat)
